@@ -257,6 +257,10 @@ func (g *G) heredoc() *Heredoc {
 		} else {
 			ln = g.hdLine(base, h.Dash)
 		}
+		if g.p(1, 10) {
+			// the delimiter of another here-document (maybe one pending on the same line) is body text here
+			ln = []Part{Lit(pickS(g, []string{"E", "EOF", "終", "END_1", "-E", "\tE"}))}
+		}
 		if txt := partsText(ln); txt == base || (h.Dash && strings.TrimLeft(txt, "\t") == base) {
 			ln = []Part{Lit(base + "_")}
 		}
